@@ -3,6 +3,7 @@
     unbounded round-trip theorem is being added in Proofs/Codec.v.) *)
 From RV Require Import Model.Base Model.Spirv Model.Grammar Model.Inst Model.Parser Model.Link.
 From RV Require Import Gen.SpirvData Gen.TableData Gen.ParseData Inst.Linked.
+From RV Require Gen.RefParams Gen.RefTable Gen.RefSpirv.
 
 (** every Operand variant is assembled in the encoding class the SPIR-V
     specification prescribes for it (masks: bits, enumerants: numeric value,
@@ -16,4 +17,17 @@ Theorem C02_tables_link :
 Proof. exact (conj table_resolves arms_link). Qed.
 
 Print Assumptions C02_operand_encoding_classes.
+(** "the grammar of its opcode" is the Khronos grammar: the tables the parser
+    and assembler run on equal the reference snapshot (layout, values, parameters) *)
+Theorem C02_grammar_is_reference :
+  (list_eqb str_eqb kind_names RefTable.kind_names = true /\
+   list_eqb raw_entry_eqb core_raw RefTable.core_raw = true) /\
+  (list_eqb enum_values_eqb enums RefSpirv.enums = true /\ list_eqb flags_eqb flags RefSpirv.flags = true) /\
+  (list_eqb arm_raw_eqb parse_arms_raw RefParams.parse_arms_raw = true /\
+   list_eqb args_raw_eqb args_raw RefParams.args_raw = true /\
+   list_eqb (pair_eqb (pair_eqb str_eqb str_eqb) Bool.eqb) decode_raw RefParams.decode_raw = true /\
+   ss_list_eqb operand_variants RefParams.operand_variants = true).
+Proof. exact (conj layout_matches_ref (conj values_match_ref params_match_ref)). Qed.
+
 Print Assumptions C02_tables_link.
+Print Assumptions C02_grammar_is_reference.
